@@ -223,7 +223,35 @@ fn main() {
     }
 }
 
+fn run_slot_case(case: &[String]) -> String {
+    // slotcase <id> ; ops: fresh | named <text> | numeric <k> | show <index of earlier result>
+    let head: Vec<&str> = case[0].split_whitespace().collect();
+    let mut res: Vec<Slot> = Vec::new();
+    let mut out: Vec<String> = Vec::new();
+    let mut panic_msg: Option<String> = None;
+    for line in &case[1..] {
+        let t: Vec<&str> = line.split_whitespace().collect();
+        let r = catch_unwind(AssertUnwindSafe(|| match t[0] {
+            "fresh" => Some(Slot::fresh()),
+            "named" => Some(Slot::named(t.get(1).copied().unwrap_or(""))),
+            "numeric" => Some(Slot::numeric(t[1].parse().unwrap())),
+            "roundtrip" => { let i: usize = t[1].parse().unwrap(); let txt = res[i].to_string(); Some(Slot::named(&txt[1..])) }
+            _ => panic!("natdiff: unknown slot op"),
+        }));
+        match r {
+            Ok(Some(s)) => { res.push(s); }
+            Ok(None) => {}
+            Err(e) => { panic_msg = Some(if let Some(s) = e.downcast_ref::<String>() { s.clone() } else if let Some(s) = e.downcast_ref::<&str>() { s.to_string() } else { "panic".to_string() }); break; }
+        }
+    }
+    for s in &res { out.push(jstr(&s.to_string())); }
+    let mut eqs = Vec::new();
+    for i in 0..res.len() { for j in (i + 1)..res.len() { if res[i] == res[j] { eqs.push(format!("[{},{}]", i, j)); } } }
+    format!("{{\"case\":{},\"slots\":[{}],\"equal_pairs\":[{}],\"panic\":{}}}", jstr(head[1]), out.join(","), eqs.join(","), match panic_msg { Some(m) => jstr(&m), None => "null".to_string() })
+}
+
 fn run_case(case: &[String]) -> String {
+    if case[0].starts_with("case slot:") { return run_slot_case(case); }
     // case <id> <lang> <analysis> <f0> <named_max> ; names v0 v1 ... ; ops...
     let head: Vec<&str> = case[0].split_whitespace().collect();
     let (id, lang, analysis, f0, named): (&str, &str, &str, u32, u32) = (head[1], head[2], head[3], head[4].parse().unwrap(), head[5].parse().unwrap());
